@@ -165,11 +165,13 @@ SeatBag(seats) ==
         go(k) == IF k = 0 THEN << >> ELSE ins(seats[k], go(k - 1))
     IN go(Len(seats))
 
-\* aggregate_pubkey of the committee with these seats ("unknown" if the oracle has no entry for the bag)
+\* aggregate_pubkey of the committee with these seats; << -1 >> (a byte sequence no key has, comparable with any
+\* logged aggregate) if the oracle has no entry for the bag -- which happens exactly when the code's seats are not the
+\* specification's, and must then read as a mismatch, never as an evaluation error
 AggregateOf(Agg, seats) ==
     LET bag == SeatBag(seats)
         qs == {q \in 1 .. Len(Agg) : Agg[q][1] = bag}
-    IN IF qs = {} THEN "unknown" ELSE Agg[CHOOSE q \in qs : TRUE][2]
+    IN IF qs = {} THEN << -1 >> ELSE Agg[CHOOSE q \in qs : TRUE][2]
 
 (************************ structural properties ***************************)
 (* "Within an epoch the committees partition the active validator set:     *)
